@@ -400,6 +400,24 @@ pub fn run(ctx: &Ctx) -> i32 {
                 if diff_case(&case, rep, "generated", None, None) {
                     rep.nontrivial(case.hash());
                 }
+                // gas-limit sweep (see online.rs): out of gas at many different instructions
+                if rng.chance(1, 20) {
+                    let used = crate::wrun::run_history(&case, None, false).outcomes.first().and_then(|o| o.gas_used());
+                    if let Some(used) = used {
+                        let (i, f) = super::online::intrinsic_gas(case.spec, &case.txs[0]);
+                        let lo = i.max(f) as u64;
+                        if used > lo && used - lo < 2_000_000 {
+                            for k in 0..10u64 {
+                                let mut c2 = case.clone();
+                                c2.txs[0].gas_limit = if k < 3 { used - 1 - k.min(used - lo - 1) } else { lo + rng.below(used - lo) };
+                                rep.count("gas_limit_sweep_cases");
+                                if diff_case(&c2, rep, "generated/gas-limit-sweep", None, None) {
+                                    rep.nontrivial(c2.hash());
+                                }
+                            }
+                        }
+                    }
+                }
                 if rep.samples.len() < 2 && k == 2 {
                     rep.sample(json!({"spec": spec_name(case.spec), "tx": case.txs[0].to_json(), "to_code": case.txs[0].to.and_then(|a| case.world.accounts.get(&a)).map(|a| hex(&a.code))}));
                 }
